@@ -79,8 +79,9 @@ pub fn explore(ctx: &Ctx, shard: usize, n: usize) -> Report {
             let w = rand_word(&mut r, &WordCfg::default());
             let line = ["", "   ", ";; a comment", " ;; a > e", "\t"][r.below(5)].to_string();
             rep.eval(1);
-            if let (Ok(word), Ok(rules)) = (parse_word(&w), compile1(&line)) {
-                if let Applied::Ok(g) = apply(&rules, &word) { if g != word { rep.violation("blank-or-comment-line-changed-the-word".into(), || json!({"case": {"rule": line, "unplanted": line, "word": w}})); } else { rep.obs("blank_lines_ok", 1); } }
+            if let Ok(word) = parse_word(&w) {
+                let rules = match compile1(&line) { Ok(x) => x, Err(e) => { let t = e.tag(); let l2 = line.clone(); rep.violation("blank-or-comment-line-rejected".into(), || json!({"case": {"rule": l2, "unplanted": l2, "word": w}, "observed": t})); continue } };
+                match apply(&rules, &word) { Applied::Err(e) => { let l2 = line.clone(); rep.violation("blank-or-comment-line-fails".into(), || json!({"case": {"rule": l2, "unplanted": l2, "word": w}, "observed": e})); } Applied::Abort(_) => {} Applied::Ok(g) => if g != word { rep.violation("blank-or-comment-line-changed-the-word".into(), || json!({"case": {"rule": line, "unplanted": line, "word": w}})); } else { rep.obs("blank_lines_ok", 1); } }
             }
         }
     }
